@@ -1412,6 +1412,226 @@ def sec_nav(m):
     return lines
 
 
+def sec_misc(m):
+    """Facts for the parts of harness/parts_misc.py: the deleted tag and the attribute assignments of Tree._unregister
+    (REMOVED, host C01); the keyword pass-through of Tree.print (PRINT, host C16); mermaid.DEFAULT_DIRECTION and the
+    defaults of the four flowchart signatures (host C17)."""
+    lines = []
+    tree, node, typed = m["tree"], m["node"], m["typed"]
+    lines.append(f"Definition DELETED_TAG : list Z := {text(const_str(module_assign(tree, '_DELETED_TAG')))}.")
+    tcls = class_def(tree, "Tree")
+    unreg = func_def(tcls, "_unregister")
+    kwd = {a.arg: d for a, d in zip(unreg.args.kwonlyargs, unreg.args.kw_defaults)}
+    if set(kwd) != {"clear"} or not (isinstance(kwd["clear"], ast.Constant) and isinstance(kwd["clear"].value, bool)):
+        raise Unsupported("Tree._unregister: expected exactly the keyword-only parameter clear=<bool>")
+    lines.append(f"Definition UNREGISTER_CLEAR_DEFAULT : bool := {'true' if kwd['clear'].value else 'false'}.")
+
+    def slot_assigns(stmts):
+        out = []
+        for st in stmts:
+            if isinstance(st, ast.Assign) and len(st.targets) == 1 and isinstance(st.targets[0], ast.Attribute) \
+                    and isinstance(st.targets[0].value, ast.Name) and st.targets[0].value.id == "node":
+                v = st.value
+                if isinstance(v, ast.Constant) and v.value is None:
+                    out.append((st.targets[0].attr, "None"))
+                elif isinstance(v, ast.Name) and v.id == "_DELETED_TAG":
+                    out.append((st.targets[0].attr, "TAG"))
+                else:
+                    raise Unsupported(f"Tree._unregister: unexpected value assigned to node.{st.targets[0].attr}")
+        return out
+
+    always = slot_assigns(unreg.body)
+    ifs = [st for st in unreg.body if isinstance(st, ast.If) and isinstance(st.test, ast.Name) and st.test.id == "clear"]
+    if len(ifs) != 1 or ifs[0].orelse:
+        raise Unsupported("Tree._unregister: expected exactly one `if clear:` without else")
+    cond = slot_assigns(ifs[0].body)
+
+    def pairs(ps):
+        return "[" + "; ".join(f"({text(a)}, {text(b)})" for a, b in ps) + "]"
+
+    lines.append(f"Definition UNREGISTER_ALWAYS : list (list Z * list Z) := {pairs(always)}.")
+    lines.append(f"Definition UNREGISTER_IF_CLEAR : list (list Z * list Z) := {pairs(cond)}.")
+    # every call of _unregister in the package: how many, and how many pass clear=
+    calls = with_clear = 0
+    for mod in (tree, node, typed):
+        for n in ast.walk(mod):
+            if isinstance(n, ast.Call):
+                f = n.func
+                nm = f.attr if isinstance(f, ast.Attribute) else f.id if isinstance(f, ast.Name) else None
+                if nm == "_unregister":
+                    calls += 1
+                    if any(k.arg == "clear" or k.arg is None for k in n.keywords) or len(n.args) > 1:
+                        with_clear += 1
+    lines.append(f"Definition UNREGISTER_CALLS : Z := {calls}%Z.")
+    lines.append(f"Definition UNREGISTER_CALLS_PASSING_CLEAR : Z := {with_clear}%Z.")
+
+    # the names the normal attribute lookup finds on a Node / TypedNode (part FORWARD: these are never forwarded to the data object)
+    def class_names(cls):
+        out = []
+        for st in cls.body:
+            if isinstance(st, (ast.FunctionDef, ast.AsyncFunctionDef)):
+                out.append(st.name)
+            elif isinstance(st, ast.Assign):
+                for tg in st.targets:
+                    if isinstance(tg, ast.Name):
+                        if tg.id == "__slots__":
+                            if not (isinstance(st.value, ast.Tuple) and all(isinstance(e, ast.Constant) and isinstance(e.value, str) for e in st.value.elts)):
+                                raise Unsupported(f"{cls.name}.__slots__ is not a tuple of str literals")
+                            out.extend(e.value for e in st.value.elts)
+                        else:
+                            out.append(tg.id)
+        seen = []
+        for n in out:
+            if n not in seen:
+                seen.append(n)
+        return seen
+
+    ncls = class_def(node, "Node")
+    tncls = class_def(typed, "TypedNode")
+    if [b.id for b in tncls.bases if isinstance(b, ast.Name)] != ["Node"]:
+        raise Unsupported("TypedNode: expected the single base class Node")
+    nn = class_names(ncls)
+    lines.append("Definition NODE_ATTR_NAMES : list (list Z) := [" + "; ".join(text(n) for n in nn) + "].")
+    lines.append("Definition TYPED_NODE_EXTRA_ATTR_NAMES : list (list Z) := [" + "; ".join(text(n) for n in class_names(tncls) if n not in nn) + "].")
+    return lines
+
+
+def kwdefaults(fn):
+    out = []
+    for a, d in zip(fn.args.kwonlyargs, fn.args.kw_defaults):
+        if d is None:
+            continue        # a required keyword-only parameter
+        if isinstance(d, ast.Constant) and d.value is None:
+            out.append((a.arg, "None"))
+        elif isinstance(d, ast.Constant) and isinstance(d.value, bool):
+            out.append((a.arg, "True" if d.value else "False"))
+        elif isinstance(d, ast.Constant) and isinstance(d.value, str):
+            out.append((a.arg, repr(d.value)))
+        elif isinstance(d, ast.Name):
+            out.append((a.arg, d.id))
+        else:
+            raise Unsupported(f"{fn.name}: unsupported default of {a.arg}")
+    return out
+
+
+
+def sec_misc_print(m):
+    """Tree.print (part PRINT, host C16): the keyword pass-through to format() and the defaults; the two default
+    rendering templates"""
+    lines = []
+    tcls = class_def(m["tree"], "Tree")
+    lines.append(f"Definition NODE_DEFAULT_RENDER_REPR : list Z := {text(const_str(class_assign(class_def(m['node'], 'Node'), 'DEFAULT_RENDER_REPR')))}.")
+    lines.append(f"Definition TYPED_DEFAULT_RENDER_REPR : list Z := {text(const_str(class_assign(class_def(m['typed'], 'TypedNode'), 'DEFAULT_RENDER_REPR')))}.")
+
+    def pairs(ps):
+        return "[" + "; ".join(f"({text(a)}, {text(b)})" for a, b in ps) + "]"
+
+    # Tree.print: exactly `print(self.format(k=k ...), file=file)`; the keyword-only parameters and their defaults
+    pr = func_def(tcls, "print")
+    fm = func_def(tcls, "format")
+
+    body = [st for st in pr.body if not (isinstance(st, ast.Expr) and isinstance(st.value, ast.Constant))]
+    ok = (len(body) == 1 and isinstance(body[0], ast.Expr) and isinstance(body[0].value, ast.Call)
+          and isinstance(body[0].value.func, ast.Name) and body[0].value.func.id == "print")
+    if not ok:
+        raise Unsupported("Tree.print: expected a single print(...) call")
+    call = body[0].value
+    if len(call.args) != 1 or not (isinstance(call.args[0], ast.Call) and isinstance(call.args[0].func, ast.Attribute)
+                                   and call.args[0].func.attr == "format" and isinstance(call.args[0].func.value, ast.Name)
+                                   and call.args[0].func.value.id == "self" and not call.args[0].args):
+        raise Unsupported("Tree.print: expected print(self.format(...), ...)")
+
+    def passed(c):
+        out = []
+        for k in c.keywords:
+            if k.arg is None or not isinstance(k.value, ast.Name):
+                raise Unsupported("Tree.print: expected keyword=name arguments")
+            out.append((k.arg, k.value.id))
+        return out
+
+    lines.append(f"Definition PRINT_KWONLY : list (list Z * list Z) := {pairs(kwdefaults(pr))}.")
+    lines.append(f"Definition FORMAT_KWONLY : list (list Z * list Z) := {pairs(kwdefaults(fm))}.")
+    lines.append(f"Definition PRINT_TO_FORMAT : list (list Z * list Z) := {pairs(passed(call.args[0]))}.")
+    lines.append(f"Definition PRINT_TO_PRINT : list (list Z * list Z) := {pairs(passed(call))}.")
+
+    return lines
+
+
+def sec_misc_mermaid(m):
+    """mermaid.DEFAULT_DIRECTION and the defaults of the four flowchart signatures (host C17)"""
+    lines = []
+    tree, node, mermaid = m["tree"], m["node"], m["mermaid"]
+    tcls = class_def(tree, "Tree")
+
+    def pairs(ps):
+        return "[" + "; ".join(f"({text(a)}, {text(b)})" for a, b in ps) + "]"
+
+    # mermaid
+    lines.append(f"Definition MERMAID_DEFAULT_DIRECTION : list Z := {text(const_str(module_assign(mermaid, 'DEFAULT_DIRECTION')))}.")
+    sigs = [func_def(mermaid, "_node_to_mermaid_flowchart_iter"), func_def(mermaid, "node_to_mermaid_flowchart"),
+            func_def(class_def(node, "Node"), "to_mermaid_flowchart"), func_def(tcls, "to_mermaid_flowchart")]
+    ds = []
+    for fn in sigs:
+        d = dict(kwdefaults(fn))
+        if "direction" not in d:
+            raise Unsupported(f"{fn.name}: no keyword-only parameter `direction`")
+        ds.append(d)
+    lines.append("Definition MERMAID_DIRECTION_DEFAULTS : list (list Z) := [" + "; ".join(text(ast.literal_eval(d["direction"]) if d["direction"][:1] in "'\"" else d["direction"]) for d in ds) + "].")
+    for nm, d in (("MERMAID_NODE_DEFAULTS", ds[2]), ("MERMAID_TREE_DEFAULTS", ds[3])):
+        lines.append(f"Definition {nm} : list (list Z * list Z) := {pairs(sorted(d.items()))}.")
+    return lines
+
+
+def sec_misc_common(m):
+    """common.py / tree.py odds and ends (part COMMONMISC, host C14): the exception hierarchy, MIN_PYTHON_VERSION_INFO,
+    the comparison and the slice of check_python_version"""
+    lines = []
+    common, tree = m["common"], m["tree"]
+    bases = []
+    for node in common.body:
+        if isinstance(node, ast.ClassDef) and node.name.endswith("Error"):
+            if len(node.bases) != 1 or not isinstance(node.bases[0], ast.Name):
+                raise Unsupported(f"class {node.name}: expected exactly one named base class")
+            bases.append((node.name, node.bases[0].id))
+    lines.append("Definition ERROR_BASES : list (list Z * list Z) := [" + "; ".join(f"({text(a)}, {text(b)})" for a, b in bases) + "].")
+    mv = module_assign(tree, "MIN_PYTHON_VERSION_INFO")
+    if not (isinstance(mv, ast.Tuple) and all(isinstance(e, ast.Constant) and isinstance(e.value, int) for e in mv.elts)):
+        raise Unsupported("MIN_PYTHON_VERSION_INFO is not a tuple of int literals")
+    lines.append("Definition MIN_PYTHON_VERSION_INFO : list Z := [" + "; ".join(f"{e.value}%Z" for e in mv.elts) + "].")
+    # check_python_version: `if sys.version_info < min_version:` ... `min_version[:3]` ... return False / return True
+    fn = func_def(common, "check_python_version")
+    ifs = [st for st in fn.body if isinstance(st, ast.If)]
+    if len(ifs) != 1 or ifs[0].orelse:
+        raise Unsupported("check_python_version: expected one `if` without else")
+    t = ifs[0].test
+    ok = (isinstance(t, ast.Compare) and len(t.ops) == 1 and isinstance(t.left, ast.Attribute) and t.left.attr == "version_info"
+          and isinstance(t.comparators[0], ast.Name) and t.comparators[0].id == fn.args.args[0].arg)
+    if not ok:
+        raise Unsupported("check_python_version: expected `sys.version_info <op> min_version`")
+    op = {ast.Lt: "<", ast.LtE: "<=", ast.Gt: ">", ast.GtE: ">="}.get(type(t.ops[0]))
+    if op is None:
+        raise Unsupported("check_python_version: unsupported comparison")
+    lines.append(f"Definition VERSION_CHECK_OP : list Z := {text(op)}.")
+
+    def ret_const(stmts):
+        r = [st for st in stmts if isinstance(st, ast.Return)]
+        if len(r) != 1 or not (isinstance(r[0].value, ast.Constant) and isinstance(r[0].value.value, bool)):
+            raise Unsupported("check_python_version: expected `return <bool literal>`")
+        return r[0].value.value
+    lines.append(f"Definition VERSION_CHECK_RETURNS : list bool := [{'true' if ret_const(ifs[0].body) else 'false'}; {'true' if ret_const(fn.body) else 'false'}].")
+    sl = [n for n in ast.walk(ifs[0]) if isinstance(n, ast.Subscript) and isinstance(n.slice, ast.Slice)]
+    if len(sl) != 1 or sl[0].slice.lower is not None or not (isinstance(sl[0].slice.upper, ast.Constant) and isinstance(sl[0].slice.upper.value, int)):
+        raise Unsupported("check_python_version: expected one slice [:k]")
+    lines.append(f"Definition VERSION_CHECK_SLICE : Z := {sl[0].slice.upper.value}%Z.")
+    # check_python_version(MIN_PYTHON_VERSION_INFO) is called at import of tree.py
+    calls = [n for n in tree.body if isinstance(n, ast.Expr) and isinstance(n.value, ast.Call) and isinstance(n.value.func, ast.Name)
+             and n.value.func.id == "check_python_version"]
+    arg_ok = len(calls) == 1 and len(calls[0].value.args) == 1 and isinstance(calls[0].value.args[0], ast.Name) \
+        and calls[0].value.args[0].id == "MIN_PYTHON_VERSION_INFO"
+    lines.append(f"Definition VERSION_CHECKED_AT_IMPORT : bool := {'true' if arg_ok else 'false'}.")
+    return lines
+
+
 # section name -> (function, source files it reads, properties whose obligations use it)
 SECTIONS = [
     ("CONNECTORS", sec_connectors, ["common", "tree"]),
@@ -1428,6 +1648,10 @@ SECTIONS = [
     ("LOCK", sec_lock, ["tree", "typed", "fs", "dot", "node"]),
     ("NAV", sec_nav, ["node"]),
     ("NAVT", sec_navt, ["typed"]),
+    ("MISC", sec_misc, ["tree", "node", "typed"]),
+    ("MISCPRINT", sec_misc_print, ["tree", "node", "typed"]),
+    ("MISCMERMAID", sec_misc_mermaid, ["tree", "node", "mermaid"]),
+    ("MISCCOMMON", sec_misc_common, ["common", "tree"]),
 ]
 FILES = dict(common="common.py", tree="tree.py", typed="typed_tree.py", fs="fs.py", diff="diff.py", mermaid="mermaid.py",
              dot="dot.py", init="__init__.py", node="node.py")
